@@ -8,14 +8,14 @@ CLAIMS = {
         'text': 'Decides structural clauses of the router generator: atomic rejection (typestate mutate->undo->reject over add_route/insert), '
                 'sibling precedence key literal<multi-field<single-field (abstract evaluation on node kinds derived from the constructor), '
                 'delayed parameter assignment (params_stack alias/def-use), path-index guards, side-table discipline, conflict table and '
-                'conservative fast_return pruning. Not decided: equality of find() with the DFS oracle on all route sets x paths. Added in the build round: only identifier-validated field names are rendered between quotes of the generated source (template text needs !r); every normal return of add_route re-assigns the finder slot; delayed constructs read only per-node unique generated names. Wave 4: a recompile publishes fresh side tables (no in-place reset), so a lookup in flight keeps a consistent finder/table pair (shared with C19 R6).',
+                'conservative fast_return pruning. Not decided: equality of find() with the DFS oracle on all route sets x paths. Added in the build round: only identifier-validated field names are rendered between quotes of the generated source (template text needs !r); every normal return of add_route re-assigns the finder slot; delayed constructs read only per-node unique generated names. Wave 4: a recompile publishes fresh side tables (no in-place reset), so a lookup in flight keeps a consistent finder/table pair (shared with C19 R6). Wave 5: any sort key (lambda or named function) is evaluated on five node kinds derived from the node constructor; every template-derived text is traced into every placeholder of the generated source and its validators are proved (findings F18, F19 fixed).',
         'note': _NOTE + 'The generated finder source is never produced or run; the generator is analysed.',
         'technique': 'typestate over CFG + abstract evaluation of sort key/conflict predicate + def-use of code-generation constructs',
     },
     'C02': {
         'text': 'Decides: route masks sinks/static (dominance in _get_responder), recency by head-insertion polarity of _sinks/_static_routes, '
                 'refresh of the combined table after every writer and its order flag, Allow-list computation order in set_default_responders '
-                '(eager OPTIONS snapshot, lazy 405 list), suffix discipline in map_http_methods, meta-method rejection. Not decided: regex semantics of sink prefixes.',
+                '(eager OPTIONS snapshot, lazy 405 list), suffix discipline in map_http_methods, meta-method rejection. Not decided: regex semantics of sink prefixes. Wave 5: a meta-method guard placed in the responder selection must cover every selection (route, sink, static route, not found).',
         'note': _NOTE,
         'technique': 'dominance/reachability on CFG + insertion-order polarity + happens-before/def-use in closures',
     },
@@ -23,7 +23,7 @@ CLAIMS = {
         'text': 'Decides the stack discipline as far as framework control flow fixes it: WSGI and ASGI __call__ are event-language-equal over '
                 '{META,REQ,CPL,PUSH,ROUTE,RSRC,RESP,HANDLE,OK,FAIL,PRESP,RENDER,X} (DFA equality after await-erasure); per-sibling typestate/dominance '
                 'obligations of the documented discipline; prepare_middleware stack polarity; before/after hook order and once-ness; lifespan order, '
-                'first-failure-stops. Every CFG path of the anchored functions is covered (loops by fixpoint). Added: registration order/mode wiring of the prepared stacks, mode separation of the static response stack, class-level hooks enumerate members across the MRO. Wave 4: a computed (non-constant) success flag is held to the conditions of the literal True; one lifespan handler loop per phase (no rollback loop); the responder-name pattern of class-level hooks is built from method tables covering COMBINED_METHODS.',
+                'first-failure-stops. Every CFG path of the anchored functions is covered (loops by fixpoint). Added: registration order/mode wiring of the prepared stacks, mode separation of the static response stack, class-level hooks enumerate members across the MRO. Wave 4: a computed (non-constant) success flag is held to the conditions of the literal True; one lifespan handler loop per phase (no rollback loop); the responder-name pattern of class-level hooks is built from method tables covering COMBINED_METHODS. Wave 5: prepare_middleware is evaluated on the 8 component shapes x 2 modes; the dependent request loop ends only by exhaustion; the resource element of the responder selection comes from the router only.',
         'note': _NOTE + 'User middleware mutating prepared stacks at run time is outside the model.',
         'technique': 'event projection CFG->NFA->DFA language equality + typestate product + dominance queries',
     },
@@ -32,7 +32,7 @@ CLAIMS = {
                 'unhandled; MRO-forward handler selection with latest-wins registration; reset-before-handler and HTTPStatus/HTTPError arms in both '
                 '_handle_exception siblings; status/headers/body wiring of the compose helpers; Vary: Accept; to_dict/_to_xml field-set agreement; '
                 'constant 4xx/5xx status per HTTPError subclass agreeing with its docstring; nothing client-triggerable raises before the first try '
-                '(exception-escape analysis). Not decided: fidelity of JSON/XML encoding of arbitrary unicode. Added: the handler registry is written only by add_error_handler/__init__; after a handled rendering failure the handler\'s body is what is sent (known finding F14). Wave 4: the default Exception handler never converts the caught exception object to text outside a try (its __str__ is user code); q never decides whether a media range matches in the error-serializer negotiation (shared with C11 R8).',
+                '(exception-escape analysis). Not decided: fidelity of JSON/XML encoding of arbitrary unicode. Added: the handler registry is written only by add_error_handler/__init__; after a handled rendering failure the handler\'s body is what is sent (known finding F14). Wave 4: the default Exception handler never converts the caught exception object to text outside a try (its __str__ is user code); q never decides whether a media range matches in the error-serializer negotiation (shared with C11 R8). Wave 5: the default serializer\'s media type is negotiated on every path (only exact-equality shortcuts); accept answers \'*/*\' for a missing and for a blank header on both stacks.',
         'note': _NOTE + 'Escape analysis assumes str/bytes/re/dict.get methods and in-range subscripts are total.',
         'technique': 'must-be-inside-try + CFG dominance + sibling language equality + exception-escape summaries + constant tables',
     },
@@ -40,14 +40,14 @@ CLAIMS = {
         'text': 'Decides: ASGI send-event typestate (INIT->STARTED->DONE; one start, only the last body event final, nothing after), single '
                 'start_response call site on every normal path, body precedence text>data>media in the three render siblings, bodiless/typeless status '
                 'sets and their branches, unconditional Content-Length = len(body sent) on non-HEAD body-bearing non-stream paths, stream close in '
-                'finally on every streaming loop, SSE event terminator and status-line shape. Not decided: validity of user header values. Added: the WSGI stream wrapper never closes the stream outside close(). Wave 4: the rendered-media cache is reset by every writer of the media (shared with C12 R4).',
+                'finally on every streaming loop, SSE event terminator and status-line shape. Not decided: validity of user header values. Added: the WSGI stream wrapper never closes the stream outside close(). Wave 4: the rendered-media cache is reset by every writer of the media (shared with C12 R4). Wave 5: events passed to send by name are folded; a sent event object is never modified; bodiless/typeless status sets decided by value.',
         'note': _NOTE,
         'technique': 'typestate over CFG with folded send-event dicts + decision-order extraction + constant folding',
     },
     'C06': {
         'text': 'Whole-behaviour equality is not a static target. Decides the parity obligations between hand-duplicated siblings: override completeness of '
                 'asgi.Request/Response (no WSGI-only state reachable), accessor parity (consulted header order, raised classes, exception-escape sets), '
-                'constructor parity, dispatch parity (reuses C03 R1/C04/C05), test-driver key tables (unguarded reads subset of unconditional writes). Added: differing path transformations, access_route tail condition, response stores of the three render copies, definite assignment of per-request attributes in both constructors. Wave 4: result-kind parity (None / constant / header value on missing, blank, non-blank input) of factory-built and hand-written header accessors; bodiless/typeless sets (shared with C05 R4) and multipart parser siblings (shared with C13 R1) registered here.',
+                'constructor parity, dispatch parity (reuses C03 R1/C04/C05), test-driver key tables (unguarded reads subset of unconditional writes). Added: differing path transformations, access_route tail condition, response stores of the three render copies, definite assignment of per-request attributes in both constructors. Wave 4: result-kind parity (None / constant / header value on missing, blank, non-blank input) of factory-built and hand-written header accessors; bodiless/typeless sets (shared with C05 R4) and multipart parser siblings (shared with C13 R1) registered here. Wave 5: constructor value pipelines (raw input -> self.path / query_string) as (guard, transformation) pairs agree on both stacks; memo discipline of request accessors (shared with C09 R2).',
         'note': _NOTE,
         'technique': 'sibling comparison: reachability over effective member tables + escape-set parity + key-table agreement',
     },
@@ -55,21 +55,21 @@ CLAIMS = {
         'text': 'Decides budget/accounting/termination clauses: WSGI BoundedStream single gate (raw stream used only through the clamp), clamp covers the '
                 'size domain (sign partition), deduction equals bytes obtained (io contract table); ASGI per-path conservation of '
                 '(bytes handed on, _bytes_remaining, num_bytes_available, _pos), termination on disconnect/missing keys, lazy wrapping. '
-                'Not decided: byte-for-byte prefix equality under all histories. Wave 4: size clamps are followed through same-class helper methods; every loop that consumes the body terminates on bytes obtained or the live budget, never on a countdown of requested sizes.',
+                'Not decided: byte-for-byte prefix equality under all histories. Wave 4: size clamps are followed through same-class helper methods; every loop that consumes the body terminates on bytes obtained or the live budget, never on a countdown of requested sizes. Wave 5: only the gated read and the constructor write the WSGI budget (a forced reset needs a proved empty read of a positive request); ASGI draining operations leave buffer and budget empty on every return; increments of the position are clamped to the remaining budget (finding F21 fixed).',
         'note': _NOTE,
         'technique': 'who-may-call + sign/partition analysis + per-path linear symbolic evaluation (conservation laws)',
     },
     'C08': {
         'text': 'Decides: split-before-decode order in parse_query_string (def-use), totality (empty escape set), the typed-getter skeleton '
                 '(last occurrence, conversion inside try -> 400-class error, store only on success, default/required, strict min/max), '
-                'to_query_str encodes keys and values, both request classes pass the two options. Not decided: equality with the reference reading; cyutil/uri.pyx. Added: shared codec-table/decoder rules of C10, UTF-8 decoding of the raw ASGI query string, no memoised function hands out a mutable container. Wave 4: get_param_as_json hands the handler the byte length of the stream it builds (finding F17, fixed).',
+                'to_query_str encodes keys and values, both request classes pass the two options. Not decided: equality with the reference reading; cyutil/uri.pyx. Added: shared codec-table/decoder rules of C10, UTF-8 decoding of the raw ASGI query string, no memoised function hands out a mutable container. Wave 4: get_param_as_json hands the handler the byte length of the stream it builds (finding F17, fixed). Wave 5: typed getters never re-tokenise stored parameter values under default arguments.',
         'note': _NOTE + 'The pure-Python parse_query_string is analysed; the Cython twin replaces it when built.',
         'technique': 'def-use ordering + exception-escape summaries + per-getter skeleton conformance',
     },
     'C09': {
         'text': 'Decides: only 4xx HTTPError subclasses escape the typed request accessors (escape analysis over both request classes), memo discipline of '
                 '_cached_* attributes, case-folding before header lookup, writer/reader format agreement (HTTP-date, ETag), Range decision table normal form. '
-                'Not decided: agreement with an RFC-level parser on all valid values. Added: no local-time primitive anywhere in the package outside testing/bench (HTTP dates of naive datetimes are UTC), Forwarded values passed on verbatim (only names and the scheme are case-folded). Wave 4: astimezone(zone) only on a receiver known to be aware (package-wide sweep, shared with C15/C16); the ETag header formatter wraps only values not already ending in the closing quote; accessors that may answer None are iterated only with a fallback or behind a test.',
+                'Not decided: agreement with an RFC-level parser on all valid values. Added: no local-time primitive anywhere in the package outside testing/bench (HTTP dates of naive datetimes are UTC), Forwarded values passed on verbatim (only names and the scheme are case-folded). Wave 4: astimezone(zone) only on a receiver known to be aware (package-wide sweep, shared with C15/C16); the ETag header formatter wraps only values not already ending in the closing quote; accessors that may answer None are iterated only with a fallback or behind a test. Wave 5: the entity-tag wildcard is produced only for the whole header value; every matched Forwarded pair creates its element; table-driven stores are read.',
         'note': _NOTE + 'Escape analysis assumptions as in C04; server-mandated keys are exempt by a frozen table.',
         'technique': 'exception-escape summaries + ownership of memo attributes + format-table agreement',
     },
@@ -83,28 +83,28 @@ CLAIMS = {
     'C11': {
         'text': 'Decides: match_score tuple order by def-use role, sentinel below any real score, strict q>0 acceptance, documented value errors only '
                 '(escape analysis), Handlers cache coherence over the full MRO including stdlib UserDict writers, resolver decision order. '
-                'Not decided: numeric outcomes on adversarial range sets beyond the tuple order. Added: constructor-bypassing copies, bulk writers must clear on exceptional exits, values handed out by memoised parsing helpers are never mutated, every score-tuple return obeys the component roles. Wave 4: q never decides whether a range matches (R8); the resolver\'s escape set is {HTTPUnsupportedMediaType} (R4e); requested type and registered keys are compared in one case form (R9).',
+                'Not decided: numeric outcomes on adversarial range sets beyond the tuple order. Added: constructor-bypassing copies, bulk writers must clear on exceptional exits, values handed out by memoised parsing helpers are never mutated, every score-tuple return obeys the component roles. Wave 4: q never decides whether a range matches (R8); the resolver\'s escape set is {HTTPUnsupportedMediaType} (R4e); requested type and registered keys are compared in one case form (R9). Wave 5: the type/subtype part of match_score is evaluated on {*, a, b} x 4; case folds on pieces of the requested type; client_accepts/client_prefers shortcuts only by whole-value equality.',
         'note': _NOTE + 'UserDict/MutableMapping are read from the running interpreter\'s stdlib source.',
         'technique': 'def-use role identification + MRO writer inventory + exception-escape summaries',
     },
     'C12': {
         'text': 'Decides: parse-once typestate on both get_media siblings (cache tests dominate deserialization, error stored on every exceptional edge), '
                 'handler error mapping (empty->MediaNotFound, ValueError->MediaMalformed, 400-class), codec agreement of serializer/deserializer, '
-                'response render-cache reset on every media writer. Not decided: loads(dumps(d)) == d. Added: the media setter resets the render cache on every path; raw bytes are never handed to loads(). Wave 4: handler resolution compares requested type and registered keys in one case form (shared with C11 R9).',
+                'response render-cache reset on every media writer. Not decided: loads(dumps(d)) == d. Added: the media setter resets the render cache on every path; raw bytes are never handed to loads(). Wave 4: handler resolution compares requested type and registered keys in one case form (shared with C11 R9). Wave 5: the form serializer\'s quoting function escapes \'%\' unconditionally (encoder table derived from the factory calls in falcon/util/uri.py).',
         'note': _NOTE,
         'technique': 'typestate + sibling language equality + writer inventory',
     },
     'C13': {
         'text': 'Decides: sync and async multipart iterators are event-language-equal, limit thresholds in normal form, only MultipartParseError/'
                 'HTTPInvalidHeader (400-class) escape the iterators and BodyPart accessors (escape analysis), delimiter evolution. '
-                'Not decided: exact part contents under all chunkings. Added: header-size-capped read never splits a delimiter (shared with C14).',
+                'Not decided: exact part contents under all chunkings. Added: header-size-capped read never splits a delimiter (shared with C14). Wave 5: part name/filename are the parsed parameter verbatim; the chunk normaliser keeps its minimum chunk length.',
         'note': _NOTE,
         'technique': 'sibling language equality + threshold normal forms + exception-escape summaries',
     },
     'C14': {
         'text': 'History x chunking equivalence with a flat cursor is value-level and not decided. Decides: _buffer_len == len(_buffer) preserved on every '
                 'acyclic path (linear symbolic evaluation), read budget clamp and single call site of the source, verified delimiter consumption, '
-                'tell()/eof expressed through the accounting fields. Added: sign partition of size normalisation, delimiter searches never look before the cursor nor stop short of a straddling delimiter, cursor conservation of every yielded/returned region (both readers).',
+                'tell()/eof expressed through the accounting fields. Added: sign partition of size normalisation, delimiter searches never look before the cursor nor stop short of a straddling delimiter, cursor conservation of every yielded/returned region (both readers). Wave 5: readline/read_until never return more than the cap; end-bounded searches carry the delimiter margin in both readers; 0 <= buffer position <= buffer length after every refill (finding F20 fixed).',
         'note': _NOTE + 'cyutil/reader.pyx not analysed.',
         'technique': 'per-path linear symbolic evaluation (invariant preservation) + who-may-call + dominance',
     },
@@ -112,35 +112,35 @@ CLAIMS = {
         'text': 'Decides: every _headers key is lower-case (reaching definition .lower() or literal), Set-Cookie guard dominance in the plain-header calls, '
                 'both emitters read all three stores and emit one line per cookie, set_cookie parameter->attribute wiring with presence guards that do not '
                 'conflate 0 with absent, URI-encoding transforms on URI-bearing helpers, header-property factory key consistency. '
-                'Not decided: full map model; http.cookies round trip. Added: single pass over the iterable argument of set_headers, astimezone only on aware datetimes, ASCII-only fallback filename pattern, shared check-escaped/escape-table rules of C10. Wave 4: the cookie jar only grows (no del/pop/clear, rebound only from None to a fresh jar); dates formatted as UTC, never through the local zone (shared with C09 R4).',
+                'Not decided: full map model; http.cookies round trip. Added: single pass over the iterable argument of set_headers, astimezone only on aware datetimes, ASCII-only fallback filename pattern, shared check-escaped/escape-table rules of C10. Wave 4: the cookie jar only grows (no del/pop/clear, rebound only from None to a fresh jar); dates formatted as UTC, never through the local zone (shared with C09 R4). Wave 5: the text rendered into both Content-Disposition forms is the filename parameter itself (provenance tables of identity/narrowing/rewriting calls).',
         'note': _NOTE,
         'technique': 'reaching definitions + guard dominance + parameter->attribute flow table',
     },
     'C16': {
         'text': 'Decides: containment lemma at every _open_file sink by must-dataflow of path facts (normalised, relative, no leading dot-dot, joined under the '
                 'directory, no ".." component), ownership of file opening, range arithmetic conservation in _set_range/_BoundedFile, status wiring '
-                '(304 before stream, 206+Content-Range iff range). Not decided: OS path resolution (normpath semantics trusted). Wave 4: every seek relative to the end of the file is clamped to [-size, 0]; HTTP dates are read as UTC, never through the local zone (shared with C09 R4).',
+                '(304 before stream, 206+Content-Range iff range). Not decided: OS path resolution (normpath semantics trusted). Wave 4: every seek relative to the end of the file is clamped to [-size, 0]; HTTP dates are read as UTC, never through the local zone (shared with C09 R4). Wave 5: the path handed to io.open is the value the containment lemma was proved for, unchanged.',
         'note': _NOTE,
         'technique': 'forward must-dataflow of path facts + ownership + linear range identities',
     },
     'C17': {
         'text': 'Decides per-operation legality: accepted-state guard before every send/receive, accept/close state updates after the send, who may emit raw events, '
                 'close on every exit of _handle_websocket and in all error handlers with the documented code mapping, close-code interval validation, payload type checks. '
-                'Not decided: legality of the whole event stream for every responder x client script. Added: state updates only on the normal continuation of the send; shared disconnect-flag rule of C18. Wave 4: a failed send marks the socket CLOSED only behind a test that the error was classified as a connection loss, and the classifier can answer \'not a connection loss\'.',
+                'Not decided: legality of the whole event stream for every responder x client script. Added: state updates only on the normal continuation of the send; shared disconnect-flag rule of C18. Wave 4: a failed send marks the socket CLOSED only behind a test that the error was classified as a connection loss, and the classifier can answer \'not a connection loss\'. Wave 5: the state set is read from the Enum and every member that some operation writes is classified (guards must treat every terminal member as closed); the cleanup fallback is reachable for any Exception; end-of-stream rule shared with C18.',
         'note': _NOTE,
         'technique': 'guard dominance + who-may-emit + close-on-all-exits + interval analysis of folded comparisons',
     },
     'C18': {
         'text': 'Losslessness under every interleaving is a schedule property and not decided. Decides the asyncio-specific necessary conditions: no suspension point '
                 'between test and waiter registration, mutate-then-notify before the next suspension point, waiter cleared in finally, FIFO polarity '
-                '(append/popleft), capacity gate dominating append, lifecycle of the pump task. Added: the pump-ended conclusion in receive() requires an un-notified waiter; every session-ending path reaches stop(). Wave 4: the disconnect marker may bypass the capacity wait only on an unbounded deque; a maxlen-bounded deque with a bypass drops messages.',
+                '(append/popleft), capacity gate dominating append, lifecycle of the pump task. Added: the pump-ended conclusion in receive() requires an un-notified waiter; every session-ending path reaches stop(). Wave 4: the disconnect marker may bypass the capacity wait only on an unbounded deque; a maxlen-bounded deque with a bypass drops messages. Wave 5: the receive path does not reach the sender-side disconnect flag through helpers or properties.',
         'note': _NOTE + 'asyncio preempts only at suspension points.',
         'technique': 'suspension-point-free window analysis on CFG + try/finally hygiene + queue polarity',
     },
     'C19': {
         'text': 'Decides necessary conditions of isolation: lazy-compile writes inside the lock with re-check and publish-after-build, no store to self.* on shared '
                 'objects on the request path, inventory of module/class-level mutable state (immutable class defaults on per-request classes, memo purity), '
-                'params/req/resp fresh per call. Not decided: serialisability of arbitrary request sets. Added: the finder slot is loaded before the tables are read in find(); no memoised function returns a mutable container it built. Wave 4: a recompile rebinds the router tables to fresh lists; no published table is emptied or reordered in place (R6).',
+                'params/req/resp fresh per call. Not decided: serialisability of arbitrary request sets. Added: the finder slot is loaded before the tables are read in find(); no memoised function returns a mutable container it built. Wave 4: a recompile rebinds the router tables to fresh lists; no published table is emptied or reordered in place (R6). Wave 5: the finder call is read through one same-class helper; stores through local aliases of shared state; per-request methods of the shipped middleware are on the request path.',
         'note': _NOTE,
         'technique': 'lock-region containment + effects/ownership inventory + purity of memoised functions',
     },
